@@ -54,6 +54,15 @@ var vC01Catalogue = []vTable{
 		lens: []int{3, 6}, methods: []string{"GET"}},
 	/*15*/ {regs: []vReg{{"GET", "/p/:a-:b", "s", "", ""}, {"GET", "/p/:a", "s", "", ""}, {"HEAD", "/p/x", "s", "", ""}},
 		lens: []int{4, 5, 6}, methods: []string{"GET", "HEAD", "OPTIONS"}},
+	// one registration for several methods followed by same-path registrations per method (the
+	// dispatcher merges same-path neighbours into one route)
+	/*16*/ {regs: []vReg{{"GET,POST", "/a", "nnnnn", "", ""}, {"GET", "/a", "s", "", ""}, {"POST", "/a", "s", "", ""}},
+		lens: []int{2, 3}, methods: []string{"GET", "POST", "PUT"}},
+	/*17*/ {regs: []vReg{{"GET,POST,PUT", "/b", "nnn", "", ""}, {"PUT", "/b", "nn", "", ""}, {"GET", "/b", "n", "", ""}, {"POST", "/b", "s", "", ""}, {"GET", "/b", "s", "", ""}},
+		lens: []int{2}, methods: []string{"GET", "POST", "PUT"}},
+	// escaped pattern characters next to their parameterised twins
+	/*18*/ {regs: []vReg{{"GET", "/f/:n", "n", "", ""}, {"GET", "/f/\\:n", "s", "", ""}, {"GET", "/f/:n", "s", "", ""}},
+		lens: []int{4, 5}, methods: []string{"GET"}},
 }
 
 var (
@@ -67,6 +76,9 @@ type vC01World struct {
 	behs  []byte   // behaviour per handler id
 	args  []string // argument per handler id
 	regOf []int    // registration index per handler id
+
+	refApps     []*App  // per registration: an app holding only that registration
+	regHandlers [][]int // per registration: its handler ids in order
 }
 
 func vProbeID(h Handler) int {
@@ -82,6 +94,9 @@ func (w *vC01World) handler(id int) Handler {
 			vProbeOut = id
 			return nil
 		}
+		if id < 0 {
+			return nil
+		}
 		w.trace = append(w.trace, byte('A'+id))
 		switch w.behs[id] {
 		case 's':
@@ -93,6 +108,35 @@ func (w *vC01World) handler(id int) Handler {
 		}
 		return c.Next()
 	}
+}
+
+func vC01Register(router Router, r vReg, hs []Handler) {
+	if r.method == "USE" {
+		args := []any{r.path}
+		for _, h := range hs {
+			args = append(args, h)
+		}
+		router.Use(args...)
+		return
+	}
+	var methods []string
+	start := 0
+	for i := 0; i <= len(r.method); i++ {
+		if i == len(r.method) || r.method[i] == ',' {
+			methods = append(methods, r.method[start:i])
+			start = i + 1
+		}
+	}
+	router.Add(methods, r.path, hs[0], hs[1:]...)
+}
+
+// refRoute: the route object registration ri produced for method index mi in its own app.
+func (w *vC01World) refRoute(ri, mi int) *Route {
+	st := w.refApps[ri].stack[mi]
+	if len(st) == 0 {
+		return nil
+	}
+	return st[len(st)-1]
 }
 
 func vDetection(cfg vCfg, p string) string {
@@ -144,15 +188,22 @@ func VH_C01_dispatch(caseID int) {
 			}
 			router = g
 		}
-		if r.method == "USE" {
-			args := []any{r.path}
-			for _, h := range hs {
-				args = append(args, h)
-			}
-			router.Use(args...)
-		} else {
-			router.Add([]string{r.method}, r.path, hs[0], hs[1:]...)
+		vC01Register(router, r, hs)
+		// the reference matcher of this registration: the same registration alone in its own app
+		// (no neighbours to merge with, no shared handler slices)
+		refApp := vNewApp(cfg)
+		var refRouter Router = refApp
+		if r.grp != "" {
+			refRouter = refApp.Group(r.grp)
 		}
+		vC01Register(refRouter, r, []Handler{w.handler(-1)})
+		refApp.startupProcess()
+		w.refApps = append(w.refApps, refApp)
+		var hid []int
+		for k := 0; k < len(r.beh); k++ {
+			hid = append(hid, len(w.behs)-len(r.beh)+k)
+		}
+		w.regHandlers = append(w.regHandlers, hid)
 	}
 	app.startupProcess()
 
@@ -192,26 +243,28 @@ func VH_C01_dispatch(caseID int) {
 	overrideAt := -1 // length of the trace when the first effective path/method override happened
 	for !stopped {
 		mi := app.methodInt(curM)
-		var hit *Route
+		hit := -1
+		hitUse := false
 		det := vDetection(cfg, curP)
-		for _, r := range app.stack[mi] {
-			if r.mount || w.regOf[vProbeID(r.Handlers[0])] <= cursor {
+		for ri := cursor + 1; ri < len(tb.regs); ri++ {
+			r := w.refRoute(ri, mi)
+			if r == nil || r.mount {
 				continue
 			}
 			if r.match(det, curP, &tmp) {
-				hit = r
+				hit = ri
+				hitUse = r.use
 				break
 			}
 		}
-		if hit == nil {
+		if hit < 0 {
 			break
 		}
-		if !hit.use {
+		if !hitUse {
 			matched = true
 		}
-		for _, h := range hit.Handlers {
-			id := vProbeID(h)
-			cursor = w.regOf[id]
+		for _, id := range w.regHandlers[hit] {
+			cursor = hit
 			want = append(want, byte('A'+id))
 			b := w.behs[id]
 			if b == 's' {
@@ -256,8 +309,9 @@ func VH_C01_dispatch(caseID int) {
 			if mi == cur {
 				continue
 			}
-			for _, r := range app.stack[mi] {
-				if r.use || r.mount {
+			for ri := range tb.regs {
+				r := w.refRoute(ri, mi)
+				if r == nil || r.use || r.mount {
 					continue
 				}
 				if r.match(det, curP, &tmp) {
